@@ -370,6 +370,14 @@ def o_free_null(prog, res, names):
         for b, i, s in f.all_stmts():
             for c in ir.calls_in(s):
                 if c.get("fn") != "free":
+                    # the free may sit in a same-file helper that receives the object: whether the pointer is
+                    # cleared (there or here) is decided by O-FREE-LIVE, which follows helpers; counted here
+                    h = prog.resolve(c["fn"], f) if c.get("fn") else None
+                    if h is not None and h is not f and h.blocks and h.file == f.file and h.name not in names and h.params and any(
+                            cc.get("fn") == "free" and cc.get("args") and (ir.ap(ir.strip(cc["args"][0])) or "").startswith(h.params[0].get("n", "?") + "->")
+                            for _b, _i, ss in h.all_stmts() for cc in ir.calls_in(ss)):
+                        n += 1
+                        res.oblige(R, "%s: release through %s" % (name, h.name), True, "decided by O-FREE-LIVE (helper summary)", f.loc(s))
                     continue
                 a = ir.strip(c["args"][0])
                 if not (isinstance(a, dict) and a.get("k") == "mem"):
@@ -421,7 +429,29 @@ def destroy_coverage(prog, res):
                 if p:
                     listed.add(p.rsplit(".", 1)[0])
                     direct.add(p.rsplit(".", 1)[0])
-    frees_in_loop = any(c.get("fn") == "free" and paths.innermost_loop(f, b.id)
+    # a same-file helper that frees the string block of its String parameter counts as the free
+    from ..freelive import summaries as _fl_summaries
+    _fns = [g_ for v_ in prog.funcs.values() for g_ in v_ if g_.file == f.file and g_.blocks]
+    _by = {g_.name: g_ for g_ in _fns}
+    releasers = set()
+    for g_ in _fns:
+        pn_ = [p_.get("n") for p_ in g_.params]
+        for b_, i_, s_ in g_.all_stmts():
+            for c_ in ir.calls_in(s_):
+                if c_.get("fn") == "free" and c_.get("args"):
+                    a_ = ir.ap(ir.strip(c_["args"][0])) or ""
+                    if pn_ and a_ == pn_[0] + "->str":
+                        releasers.add(g_.name)
+    for b, i, s in f.all_stmts():
+        for c in ir.calls_in(s):
+            if c.get("fn") in releasers and c.get("args"):
+                a0 = ir.strip(c["args"][0])
+                if isinstance(a0, dict) and a0.get("k") == "addr":
+                    p = is_param_path(a0["e"], self_["id"])
+                    if p:
+                        listed.add(p)
+                        direct.add(p)
+    frees_in_loop = any((c.get("fn") == "free" or c.get("fn") in releasers) and paths.innermost_loop(f, b.id)
                         for b, i, s in f.all_stmts() for c in ir.calls_in(s))
     for m in members:
         inst = "storage_properties_destroy releases %s" % m
@@ -1011,10 +1041,14 @@ def run(ctx, res):
     o_fieldcov_copy(prog, res, f)
     o_fieldcov_dimension(prog, res)
     destroy_coverage(prog, res)
-    n = o_free_null(prog, res, ["storage_dimension_destroy", "storage_properties_dimensions_destroy",
-                                "storage_properties_destroy"])
-    if n < 3:
-        raise AnalysisBroken("expected three free() sites in the destroy functions, found %d" % n)
+    def _free_null(prog_, res_):
+        n_ = o_free_null(prog_, res_, ["storage_dimension_destroy", "storage_properties_dimensions_destroy",
+                                       "storage_properties_destroy"])
+        if n_ < 3:
+            # the frees may have moved into a helper: O-FREE-LIVE (below) follows helpers; this rule alone
+            # then ends as analysis-broken unless another rule reports a violation
+            raise AnalysisBroken("expected three free() sites in the destroy functions, found %d" % n_)
+    res.guard(_free_null, prog, res)
     copy_string_rules(prog, res)
     res.guard(string_buffer, prog, res)
     res.guard(dimension_rules, prog, res)
